@@ -13,6 +13,8 @@ import (
 	"fmt"
 	"strconv"
 	"strings"
+	"sync/atomic"
+	"time"
 
 	"github.com/btcsuite/btcd/btcec/v2"
 	"github.com/btcsuite/btcd/wire"
@@ -186,8 +188,43 @@ func (c *Ctx) csvFor() uint32 {
 	return p.CSV
 }
 
-// Step executes one scenario step and returns a short result string.
+// stepWatchdog: a scenario step that has not returned after this long never will (every timing of the node is
+// scaled to milliseconds in the harness): a handler is blocked
+const stepWatchdog = 20 * time.Second
+
+var hangsSeen int32
+
+// Step executes one scenario step under the watchdog and returns a short result string; once a step hung, the world
+// is marked and every later step returns "hung" at once (the blocked goroutine is left behind).
 func (c *Ctx) Step(step string) string {
+	if c.w.hung {
+		return "hung"
+	}
+	if atomic.LoadInt32(&hangsSeen) >= 3 {
+		// several steps of this run already hung: the code under test blocks; do not wait out the watchdog in
+		// every remaining scenario
+		c.w.mu.Lock()
+		c.w.hung = true
+		c.w.mu.Unlock()
+		c.w.note(Obs{Kind: "hang", Swap: c.w.name(c.id), A: map[string]string{"s": step + " (not run: earlier steps of this run hung)"}})
+		return "hung"
+	}
+	done := make(chan string, 1)
+	go func() { done <- c.stepInner(step) }()
+	select {
+	case r := <-done:
+		return r
+	case <-time.After(stepWatchdog):
+		c.w.mu.Lock()
+		c.w.hung = true
+		c.w.mu.Unlock()
+		c.w.note(Obs{Kind: "hang", Swap: c.w.name(c.id), A: map[string]string{"s": step}})
+		atomic.AddInt32(&hangsSeen, 1)
+		return "hung"
+	}
+}
+
+func (c *Ctx) stepInner(step string) string {
 	f := strings.Fields(step)
 	if len(f) == 0 {
 		return ""
